@@ -369,6 +369,23 @@ int process_start(pid_t *process,
     int redirect[] = { options.handle.in, options.handle.out,
                        options.handle.err };
 
+    // A handle that is itself one of the standard stream numbers (the parent's
+    // stdout given as the handle for stderr) is overwritten by an earlier
+    // iteration of the loop below before it is used. Work on a copy instead.
+    for (int i = 0; i < (int) ARRAY_SIZE(redirect); i++) {
+      if (redirect[i] > STDERR_FILENO || redirect[i] >= i) {
+        continue;
+      }
+
+      r = fcntl(redirect[i], F_DUPFD_CLOEXEC, STDERR_FILENO + 1);
+      if (r < 0) {
+        r = -errno;
+        goto child;
+      }
+
+      redirect[i] = r;
+    }
+
     for (int i = 0; i < (int) ARRAY_SIZE(redirect); i++) {
       // `i` corresponds to the standard stream we need to redirect.
       r = dup2(redirect[i], i);
